@@ -40,7 +40,7 @@ import (
 // ------------------------------------------------------------------------------------------- in-process: tri-state
 
 func triStateStream(c *lib.Ctx) {
-	n := c.Scale(60, 1200)
+	n := c.Scale(40, 1200)
 	for i := 0; i < n; i++ {
 		r := c.Rng.Fork()
 		cs, ts, cl := genCfg(r), genTgt(r), genCaller(r)
@@ -120,7 +120,7 @@ func observeHeaders(cs cfgSpec, ts tgtSpec, cl caller, raws []string) (obs, []st
 }
 
 func headerStream(c *lib.Ctx) {
-	n := c.Scale(60, 1200)
+	n := c.Scale(40, 1200)
 	for i := 0; i < n; i++ {
 		r := c.Rng.Fork()
 		cs, ts, cl := genCfg(r), genTgt(r), genCaller(r)
@@ -681,7 +681,7 @@ func endToEndR2(c *lib.Ctx) {
 	real, err := filepath.EvalSymlinks(plz)
 	must(err)
 	plzDir := filepath.Dir(real)
-	nh := c.Scale(6, 60)
+	nh := c.Scale(4, 60)
 	extra := c.Scale(0, 4)
 	base := e2e.Scratch("c10r2")
 	defer os.RemoveAll(base)
